@@ -107,7 +107,7 @@ def run(ctx):
     order = sorted(range(len(jobs)), key=lambda k: -jobs[k]["inp"]["n"])
     t = time.time()
     mc = Background(lambda: model_check_runs(ctx.quick))        # (M) runs overlap with the case execution
-    results = cases.run_all([jobs[k] for k in order], procs=4 if ctx.quick else 6, workdir=ctx.workdir)
+    results = cases.run_all([jobs[k] for k in order], procs=4 if ctx.quick else 6, workdir=ctx.workdir, log=ctx.log)
     ctx.log("executed %d cases (%d encoder runs) in %.1fs" % (len(results), sum(r["encs"] for r in results), time.time() - t))
     model_check_apply(ctx, mc.result())
     l1, l2 = [], []
@@ -131,10 +131,9 @@ def run(ctx):
         rej = tracev.validate(ctx, mod, hs, key_of, timeout=1500)
         ctx.log("%s: %d executions, %d events, rejected=%d (%.1fs)" % (mod, len(hs), sum(len(e) for _, e in hs), rej, time.time() - t))
     for hs in (l1, l2):
-        for label, evs in hs:
-            if 8 < len(evs) < 40:
-                ctx.sample(dict(kind="execution", label=label, events=evs), limit=3)
-                break
+        pick = [x for x in hs if 8 < len(x[1]) < 40] or hs[:1]
+        for label, evs in pick[:1]:
+            ctx.sample(dict(kind="execution", label=label, events=evs[:60]), limit=3)
     ctx.assumptions += ["the glue range decoder/tokeniser (harness/glue, closure-tested against liblzma both ways) reports the symbols that are in the bytes",
                         "sha256 digests stand for byte equality of the multi-MiB outputs",
                         "inputs >= 4 GiB are replaced by the match finder offset bias (lzma_verif_mf_normalize_after)"]
